@@ -123,6 +123,9 @@ def model_tuple(m):
 
 
 # calls on ill-formed sources made before the checked calls at every fourth position: nothing of them may survive
+# the documented defaults of the scanner options, spelled out (frozen here, not read from the library)
+DEFAULT_EMPTY = ['img', 'meta', 'link', 'br', 'base', 'hr', 'area', 'wbr', 'col', 'embed', 'input', 'param', 'source', 'track']
+DEFAULT_SPECIAL = {'style': None, 'script': ['', 'text/javascript', 'application/x-javascript', 'javascript', 'typescript', 'ts', 'coffee', 'coffeescript']}
 POISON_HTML = [('<div class="a b', 7), ('<p><!-- x', 5), ('<a><script>if (a<b) <i>', 14), ("<e class='x y' f=", 4)]
 POISON_CSS = [('.hero { width: calc(100% - ', 20), ('a { color: 0, 0, 0, .5); }', 6), ('a { b: "x', 8), ('a { /* x', 7), ('a { b: url(c;d', 9)]
 
@@ -145,7 +148,26 @@ def poison_css():
                 pass
 
 
-def check_html_pos(text, elements, p):
+def check_html_pos(text, elements, p, options=None):
+    if options is not None:
+        # select_item_html with an options argument: the document was emitted for exactly these options (an empty `special`
+        # table makes a bare <script> an ordinary element; `empty: []` would make <br> a paired tag - not generated)
+        bad = []
+        if any(e['open'][0] < p < e['open'][1] for e in elements):
+            return bad
+        tags = sorted(elements, key=lambda e: e['open'][0])
+        nxt = [e for e in tags if e['open'][1] > p]
+        prv = [e for e in tags if e['open'][0] < p]
+        for is_prev, cand in ((False, nxt[:1]), (True, prv[-1:])):
+            try:
+                m = select_item_html(text, p, is_prev, dict(options))
+            except Exception as ex:
+                bad.append(('select_item_html:options:exception:%s' % type(ex).__name__, str(ex)[:100]))
+                continue
+            exp = tag_model(text, cand[0]) if cand else None
+            if model_tuple(m) != exp:
+                bad.append(('select_item_html:options:%s' % ('previous' if is_prev else 'next'), dict(options=options, expected=exp, got=model_tuple(m))))
+        return bad
     if p % 4 == 0:
         poison_html()
     bad = []
@@ -309,6 +331,24 @@ def run_shard(shard, ctx, tier):
                 for cls, d in check_html_pos(text, elements, p):
                     ctx.violation(cls, dict(lang='html', forest=forest, pos=p, text=text), d)
             ctx.outcome(('html', len(elements), len(text)))
+            if HD.uses_kind(forest, 'tpl') and not any(HD.uses_kind(forest, k_) for k_ in ('script', 'style', 'script/')):
+                # the options argument: a bare <script> with markup children, read with an empty `special` table (an empty table
+                # is a table), and the same document under the default options spelled out
+                text2, elements2 = HD.emit(forest, False, None, True)
+                for p in range(len(text2) + 1):
+                    ctx.transitions += 1
+                    ctx.evals += 2
+                    ctx.validated += 1
+                    for cls, d in check_html_pos(text2, elements2, p, {'special': {}}):
+                        ctx.violation(cls, dict(lang='html', forest=forest, pos=p, text=text2, options={'special': {}}), d)
+            elif idx % 3 == 0:
+                dflt = {'xml': False, 'empty': list(DEFAULT_EMPTY), 'special': dict(DEFAULT_SPECIAL)}
+                for p in range(len(text) + 1):
+                    ctx.transitions += 1
+                    ctx.evals += 2
+                    ctx.validated += 1
+                    for cls, d in check_html_pos(text, elements, p, dflt):
+                        ctx.violation(cls, dict(lang='html', forest=forest, pos=p, text=text, options='defaults spelled out'), d)
         if text:
             ctx.sample(dict(document=text))
         return
@@ -341,6 +381,12 @@ def _tup(sh):
 
 
 def check_case(case):
+    if case['lang'] == 'html' and case.get('options') == {'special': {}}:
+        text, elements = HD.emit(_untuple(case['forest']), False, None, True)
+        return check_html_pos(text, elements, case['pos'], {'special': {}})
+    if case['lang'] == 'html' and case.get('options'):
+        text, elements = HD.emit(_untuple(case['forest']), False)
+        return check_html_pos(text, elements, case['pos'], {'xml': False, 'empty': list(DEFAULT_EMPTY), 'special': dict(DEFAULT_SPECIAL)})
     if case['lang'] == 'html':
         text, elements = HD.emit(_untuple(case['forest']), False)
         return check_html_pos(text, elements, case['pos'])
@@ -350,6 +396,8 @@ def check_case(case):
 
 
 def repro(case):
+    if case['lang'] == 'html' and case.get('options') == {'special': {}}:
+        return 'from emmet.action_utils import select_item_html\ns = %r\nprint(select_item_html(s, %d, False, {"special": {}}).to_json())\n' % (case['text'], case['pos'])
     if case['lang'] == 'html':
         return 'from emmet.action_utils import get_open_tag, select_item_html\ns = %r\nt = get_open_tag(s, %d)\nprint(t and t.to_json())\nprint(select_item_html(s, %d).to_json())\n' % (
             case['text'], case['pos'], case['pos'])
